@@ -4,6 +4,7 @@
 // Non-trivial = the conversion succeeded, or the text contains a digit (it got beyond blank skipping / sign handling).
 #include <chrono>
 #include <ctime>
+#include <memory>
 #include "bitserializer/convert.h"
 #include "bitserializer/types/std/chrono.h"
 #include "fuzz_common.h"
@@ -43,9 +44,10 @@ void vf_write_seeds(const std::string& dir) {
 extern "C" int LLVMFuzzerTestOneInput(const uint8_t* data, size_t size) {
 	if (size < 2) return 0; const uint8_t sel = data[0], w = data[1] % 4; const uint8_t* p = data + 2; const size_t n = size - 2; g_ok = false; bool digit = false; for (size_t i = 0; i < n; i++) if (p[i] >= '0' && p[i] <= '9') digit = true;
 	try {
-		if (w == 0) { std::string s(reinterpret_cast<const char*>(p), n); all(s, sel); if (sel & 0x80) all(std::string_view(s), sel); }
-		else if (w == 1) { std::u16string s(n / 2, 0); memcpy(s.data(), p, n / 2 * 2); all(s, sel); }
-		else if (w == 2) { std::u32string s(n / 4, 0); memcpy(s.data(), p, n / 4 * 4); all(s, sel); }
+		// the text is also handed over as a view into an exact-size heap block (not NUL-terminated), so that a read one character past the end is an ASan report
+		if (w == 0) { std::string s(reinterpret_cast<const char*>(p), n); if ((sel & 0x80) || sel % 34 == 28) all(s, sel); /* long double: libstdc++ 12's from_chars calls strlen on its input (toolchain defect, not the library's), keep it NUL-terminated */ else { std::unique_ptr<char[]> b(new char[n ? n : 1]); memcpy(b.get(), p, n); all(std::string_view(b.get(), n), sel); } }
+		else if (w == 1) { std::u16string s(n / 2, 0); memcpy(s.data(), p, n / 2 * 2); if (sel & 0x80) all(s, sel); else { std::unique_ptr<char16_t[]> b(new char16_t[n / 2 ? n / 2 : 1]); memcpy(b.get(), p, n / 2 * 2); all(std::u16string_view(b.get(), n / 2), sel); } }
+		else if (w == 2) { std::u32string s(n / 4, 0); memcpy(s.data(), p, n / 4 * 4); if (sel & 0x80) all(s, sel); else { std::unique_ptr<char32_t[]> b(new char32_t[n / 4 ? n / 4 : 1]); memcpy(b.get(), p, n / 4 * 4); all(std::u32string_view(b.get(), n / 4), sel); } }
 		else { std::wstring s(n / 4, 0); memcpy(s.data(), p, n / 4 * 4); all(s, sel); }
 	} catch (const std::exception&) { } catch (...) { vfz::fail("something that is not derived from std::exception escapes Convert::To"); }
 	static const char* wl[] = { "char", "char16_t", "char32_t", "wchar_t" };
